@@ -19,7 +19,7 @@ func init() {
 	register(&propDef{
 		id: "C09",
 		meta: propMeta{
-			explanation: "Decides the structural clauses of 'no route runs without a valid token': (R1) in each of the three server constructors, on every path on which a verifier is configured, Use(Auth.Verify) on the gin engine precedes every route or group registration (including those made by callees), the engine is the http.Server's handler, and every other registration site in the module is a method reached after construction on a group derived from that engine; (R2) every path through Auth.Verify either aborts (401, or 500 on the unknown-error arm) or stores the token returned by that very verifier call under err == nil and calls Next; parseToken returns false only after aborting; (R3) JWTVerifier.Verify returns a token only under err == nil and token.Valid, parses with WithValidMethods(v.methods) always and WithAudience/WithIssuer under their non-empty facts, and the module never calls ParseUnverified/WithoutClaimsValidation/UnsafeAllowNoneSignatureType; (R4) per key family the algorithm names enabled equal the case labels that return that family's key, each enabled only under 'that key is configured' (a length test for the byte-slice secret, since it is never nil); (R5) each port's verifier derives from that port's own auth configuration and is non-nil exactly when it is enabled; (R6) x-piko-authorization is read first, Authorization only when it is empty, scheme Bearer. Not decided: cryptographic verification (golang-jwt, keyfunc: trusted).",
+			explanation: "Decides the structural clauses of 'no route runs without a valid token': (R1) in each of the three server constructors, on every path on which a verifier is configured, Use(Auth.Verify) on the gin engine precedes every route or group registration (including those made by callees), the engine is the http.Server's handler, and every other registration site in the module is a method reached after construction on a group derived from that engine; (R2) every path through Auth.Verify either aborts (401, or 500 on the unknown-error arm) or stores the token returned by that very verifier call under err == nil and calls Next; parseToken returns false only after aborting; (R3) JWTVerifier.Verify returns a token only under err == nil and token.Valid, parses with WithValidMethods(v.methods) always and WithAudience/WithIssuer under their non-empty facts, and the module never calls ParseUnverified/WithoutClaimsValidation/UnsafeAllowNoneSignatureType; (R4) per key family the algorithm names enabled equal the case labels that return that family's key, each enabled only under 'that key is configured' (a length test for the byte-slice secret, since it is never nil); (R5) each port's verifier derives from that port's own auth configuration and is non-nil exactly when it is enabled; (R6) x-piko-authorization is read first, Authorization only when it is empty, scheme Bearer. Not decided: cryptographic verification (golang-jwt, keyfunc: trusted). Second round: (R7) error-arm contradiction rule over pkg/auth, pkg/middleware, server/admin, server/status; the C10 rule set runs with this check.",
 			ruleText:    "obligation = one constructor path class / registration site / return / option / table row; distinct = distinct keys",
 			assumptions: []string{"gin builds a route's handler chain from the group's handlers at registration time; a middleware that returns without Abort lets the chain continue (gin v1.11 routergroup.go/context.go)", "golang-jwt enforces validMethods only when the slice is non-nil and rejects alg none unless explicitly allowed"},
 		},
@@ -42,7 +42,7 @@ func init() {
 	register(&propDef{
 		id: "C10",
 		meta: propMeta{
-			explanation: "Decides 'the endpoint that is checked is the endpoint that is routed' and the tenant selection structurally: (R1) in every handler that reads the verified token, every path to a routing call (a call receiving the endpoint id, or the WebSocket upgrade) either carries the fact 'no token' or passed EndpointPermitted(E) == true on that token for the very value E that is routed - helpers are summarised: a helper's `true` result counts only if each of its true-returns satisfies the same condition; a denied check cannot reach a routing call; (R2) EndpointPermitted is true for an empty list and otherwise exactly slices.Contains(t.Endpoints, id); (R3) the multi-tenant verifier uses the default verifier only when no tenant is named and no tenants are configured, otherwise the verifier stored under exactly the named tenant, stamps that tenant on the token, and refuses everything else; (R4) header names and scheme agree between the client dialer and the middleware, and the token context key is set only by Auth.Verify with the token returned by the verifier call of that request (no cache between requests). Endpoint derivation from the request is C01.R3.",
+			explanation: "Decides 'the endpoint that is checked is the endpoint that is routed' and the tenant selection structurally: (R1) in every handler that reads the verified token, every path to a routing call (a call receiving the endpoint id, or the WebSocket upgrade) either carries the fact 'no token' or passed EndpointPermitted(E) == true on that token for the very value E that is routed - helpers are summarised: a helper's `true` result counts only if each of its true-returns satisfies the same condition; a denied check cannot reach a routing call; (R2) EndpointPermitted is true for an empty list and otherwise exactly slices.Contains(t.Endpoints, id); (R3) the multi-tenant verifier uses the default verifier only when no tenant is named and no tenants are configured, otherwise the verifier stored under exactly the named tenant, stamps that tenant on the token, and refuses everything else; (R4) header names and scheme agree between the client dialer and the middleware, and the token context key is set only by Auth.Verify with the token returned by the verifier call of that request (no cache between requests). Endpoint derivation from the request is C01.R3. Second round: (R6) a tenant's verifier is built from that tenant's configuration only and a default verifier from its port's Auth only.",
 			ruleText:    "obligation = one routing call / return / call site / constant; distinct = distinct keys",
 			assumptions: []string{"JWT verification binds the token to the tenant's key (C09.R3/R4)"},
 		},
